@@ -17,4 +17,4 @@ PROPS = dict(sorted(PROPS.items()))
 
 # Properties whose checks are finished (quiet on the unchanged tree, sensitivity-tested):
 # only these are claimed in MANIFEST.json; the driver can run any configured property.
-CLAIMED = ["C01", "C03", "C04", "C05", "C07", "C08", "C09", "C10", "C11", "C12", "C13", "C14", "C15", "C16", "C17", "C18", "C19", "C20"]
+CLAIMED = ["C01", "C02", "C03", "C04", "C05", "C06", "C07", "C08", "C09", "C10", "C11", "C12", "C13", "C14", "C15", "C16", "C17", "C18", "C19", "C20"]
